@@ -12,13 +12,14 @@ git -C /repo worktree add -q --detach "$d/r" HEAD >/dev/null 2>&1 || { echo "wor
 cd "$d/r"
 if [ -f "$sd/zz_seed_demo_test.go" ]; then demo="$sd/zz_seed_demo_test.go"; else demo=$(ls $sd/*_test.go 2>/dev/null | head -1); fi
 res=""
+DEMOTAGS=""; if [ -n "$demo" ] && grep -q "^//go:build.*verif" "$demo"; then DEMOTAGS="-tags=verif"; fi
 if ! git apply "$sd/patch.diff" 2>/dev/null; then res="PATCH-DOES-NOT-APPLY"; else
   if [ -z "$SKIP_SUITE" ]; then
     if go test -vet=off -count=1 -timeout 20m ./... >"$d/suite.log" 2>&1; then res="suite=pass"; else res="suite=FAIL($(grep -c '^FAIL' $d/suite.log))"; fi
   fi
   if [ -n "$demo" ]; then
     cp "$demo" "$pkg/zz_seed_demo_test.go"
-    if go test -vet=off -count=1 -timeout 10m -run 'Seed' "./$pkg/" >"$d/demo1.log" 2>&1; then res="$res demo-with-patch=PASS(!)"; else res="$res demo-with-patch=fail"; fi
+    if go test $DEMOTAGS -vet=off -count=1 -timeout 10m -run 'Seed' "./$pkg/" >"$d/demo1.log" 2>&1; then res="$res demo-with-patch=PASS(!)"; else res="$res demo-with-patch=fail"; fi
     rm -f "$pkg/zz_seed_demo_test.go"
   fi
   out=$(VERIF_DIR=/verif /verif/bin/govc check -property "$prop" -tier ${TIER:-quick} -repo "$d/r" -no-evidence 2>&1); rc=$?
@@ -27,7 +28,7 @@ if ! git apply "$sd/patch.diff" 2>/dev/null; then res="PATCH-DOES-NOT-APPLY"; el
   git checkout -q -- . 
   if [ -n "$demo" ]; then
     cp "$demo" "$pkg/zz_seed_demo_test.go"
-    if go test -vet=off -count=1 -timeout 10m -run 'Seed' "./$pkg/" >"$d/demo0.log" 2>&1; then res="$res demo-without=pass"; else res="$res demo-without=FAIL(!) [$(tail -5 $d/demo0.log | tr "\n" " " | cut -c1-300)]"; fi
+    if go test $DEMOTAGS -vet=off -count=1 -timeout 10m -run 'Seed' "./$pkg/" >"$d/demo0.log" 2>&1; then res="$res demo-without=pass"; else res="$res demo-without=FAIL(!) [$(tail -5 $d/demo0.log | tr "\n" " " | cut -c1-300)]"; fi
   fi
 fi
 cd /; git -C /repo worktree remove --force "$d/r" >/dev/null 2>&1; rm -rf "$d"
